@@ -5,9 +5,11 @@ import (
 	"strings"
 	"time"
 
+	"github.com/cosmos/cosmos-sdk/codec"
 	sdk "github.com/cosmos/cosmos-sdk/types"
 	banktypes "github.com/cosmos/cosmos-sdk/x/bank/types"
 
+	"github.com/jackalLabs/canine-chain/v4/app"
 	storagetypes "github.com/jackalLabs/canine-chain/v4/x/storage/types"
 
 	"verif/harness/mc"
@@ -15,7 +17,9 @@ import (
 )
 
 // C15 — provider collateral is fully backed and returned exactly once.
-type C15 struct{ Seeded bool } // Seeded: provider A starts registered and holding three files it will stop proving
+// Seeded: provider A starts registered and holding three files it will stop proving.
+// Legacy: the genesis state holds a provider L without a collateral record (registered before collateral existed).
+type C15 struct{ Seeded, Legacy bool }
 
 const c15Price = int64(1_000_000)
 
@@ -41,12 +45,28 @@ func (s C15) Name() string {
 	if s.Seeded {
 		return "C15/collateral-lapsing-provider"
 	}
+	if s.Legacy {
+		return "C15/collateral-legacy-provider"
+	}
 	return "C15/collateral"
 }
 
 var c15Files = []*sfile{mkFile(seqBytes(8, 61), 4), mkFile(seqBytes(8, 62), 4), mkFile(seqBytes(8, 63), 4)}
 
 func (s C15) Config() world.Config {
+	if s.Legacy {
+		return world.Config{
+			Accounts: []string{"A", "B", "L"},
+			Storage:  func(p *storagetypes.Params) { p.CollateralPrice = c15Price },
+			GenesisMod: func(cdc codec.JSONCodec, gs app.GenesisState) {
+				var g storagetypes.GenesisState
+				cdc.MustUnmarshalJSON(gs[storagetypes.ModuleName], &g)
+				l := world.MakeAcct("L").Bech
+				g.ProvidersList = append(g.ProvidersList, storagetypes.Providers{Address: l, Ip: "https://legacy.example.com", Totalspace: "1000000", BurnedContracts: "0", Creator: l, KeybaseIdentity: "kb", AuthClaimers: []string{}})
+				gs[storagetypes.ModuleName] = cdc.MustMarshalJSON(&g)
+			},
+		}
+	}
 	if s.Seeded {
 		return world.Config{
 			Accounts: []string{"A", "B", "C", "D"},
@@ -64,6 +84,12 @@ func (s C15) Config() world.Config {
 }
 func (C15) Stores() []string { return []string{"storage", "bank"} }
 func (s C15) Init(env world.Env) mc.Model {
+	if s.Legacy {
+		if _, ok := env.W().App.StorageKeeper.GetProviders(env.Ctx(), env.W().A("L").Bech); !ok {
+			panic("harness: the legacy provider is not in the genesis state")
+		}
+		return c15Model{Price: c15Price, Rec: map[string]int64{"L": 0}}
+	}
 	if s.Seeded {
 		w := env.W()
 		a, c := w.A("A").Bech, w.A("C").Bech
@@ -94,6 +120,13 @@ var c15Who = []string{"A", "B", "D"}
 
 func (s C15) Events(env world.Env, m mc.Model) []string {
 	var evs []string
+	if s.Legacy {
+		evs = append(evs, "Init:A", "Shutdown:A", "Init:L", "Shutdown:L", "Init:B", "Price:2")
+		if m.(c15Model).Blocks < 1 {
+			evs = append(evs, "NextBlock")
+		}
+		return evs
+	}
 	if s.Seeded { // the provider never proves again: reward blocks drop and burn it on all three files
 		evs = append(evs, "Init:A", "Shutdown:A", "Init:B", "Price:2")
 		if m.(c15Model).Blocks < 6 {
@@ -274,7 +307,11 @@ func (C15) Apply(env world.Env, mm mc.Model, ev string) mc.Step {
 		if res.OK() {
 			st.Outcome = "ok"
 			delete(m.Rec, id)
-			if !deltaOf(d, payee, "ujkl").Equal(sdk.NewInt(amt)) || !deltaOf(d, escrow, "ujkl").Equal(sdk.NewInt(-amt)) || len(d) != 2 {
+			if amt == 0 { // a provider without a collateral record has nothing to get back
+				if len(d) != 0 {
+					vs = append(vs, viol("shutdown-returns-recorded", "wrong-transfer", "nothing recorded, balance changes %s", diffString(w, d, map[string]string{escrow: "escrow"})))
+				}
+			} else if !deltaOf(d, payee, "ujkl").Equal(sdk.NewInt(amt)) || !deltaOf(d, escrow, "ujkl").Equal(sdk.NewInt(-amt)) || len(d) != 2 {
 				vs = append(vs, viol("shutdown-returns-recorded", "wrong-transfer", "recorded %d (current price %d), balance changes %s", amt, m.Price, diffString(w, d, map[string]string{escrow: "escrow"})))
 			}
 			if _, f := k.GetCollateral(env.Ctx(), creator); f {
